@@ -257,3 +257,17 @@ Proof.
     assert ((v / 2^32) mod 2^32 * 2^32 + v mod 2^32 < 2^64); [|lia].
     change (2^64) with (2^32 * 2^32). nia.
 Qed.
+
+(* two well-formed triples with the same global index are the same claim position: same flag, same leaf index and,
+   off mainnet, the same rollup index (on mainnet the rollup index is not part of the value) *)
+Lemma encode_injective m1 r1 l1 m2 r2 l2 :
+  r1 < 2^32 -> l1 < 2^32 -> r2 < 2^32 -> l2 < 2^32 ->
+  encode m1 r1 l1 = encode m2 r2 l2 ->
+  m1 = m2 /\ l1 = l2 /\ (m1 = false -> r1 = r2).
+Proof.
+  intros Hr1 Hl1 Hr2 Hl2 E.
+  pose proof (decode_encode m1 r1 l1 Hr1 Hl1) as D1.
+  pose proof (decode_encode m2 r2 l2 Hr2 Hl2) as D2.
+  rewrite E in D1. rewrite D1 in D2. unfold canon in D2.
+  destruct m1, m2; inversion D2; subst; repeat split; auto; discriminate.
+Qed.
